@@ -12,7 +12,9 @@ import os
 from sim.plan import Plan
 
 NAMES = ["install", "customize", "s.1", "a-b", "boot10", "x0", "on_customize"]
-ON_SIZES = ["1 GiB", "1.16 GiB", "512 MiB", "4 KiB", "100 B", "10 B", "20 MiB"]
+# what qemu-img prints (%0.3g, next unit from 1000 on): whole, fractional, below one, exponent forms
+ON_SIZES = ["1 GiB", "1.16 GiB", "512 MiB", "4 KiB", "100 B", "10 B", "20 MiB", "0.986 GiB", "0.977 MiB", "1e+03 MiB",
+            "999 KiB"]
 
 
 class Disk:
